@@ -39,9 +39,19 @@ pub fn parse_ignore(source: &Path, config: &Config) -> Result<Option<Gitignore>>
         info!("Using .gitignore file {:?}", gifile);
         let mut builder = GitignoreBuilder::new(source);
         // Only ever read a regular file; a FIFO or socket of that
-        // name would block or fail.
-        if gifile.is_file() {
-            builder.add(&gifile);
+        // name would block or fail. A file we can't look at or
+        // read must not silently mean "no rules".
+        match gifile.metadata() {
+            Ok(meta) if meta.is_file() => {
+                if let Some(err) = builder.add(&gifile) {
+                    if err.is_io() {
+                        return Err(err.into());
+                    }
+                }
+            }
+            Ok(_) => {}
+            Err(e) if e.kind() == std::io::ErrorKind::NotFound => {}
+            Err(e) => return Err(e.into()),
         }
         let ignore = builder.build()?;
         Some(ignore)
